@@ -57,16 +57,27 @@ pub fn expected(v: &RView) -> Expect {
     //  L (the library's rule texts, decided by the presence of 71F/71G in sequence B): charges => 19 mandatory
     //    (D80) and equal to the sum (C01); no charges => 32B of C equals the sum (D80) and 19 not allowed (D80)
     // A code is demanded when both readings demand it and not judged when only one does.
-    let b_amounts: Vec<DecStr> = bs.iter().filter_map(|b| get(b, "32B").and_then(amount_of)).collect();
+    let b_amounts: Vec<DecStr> = bs
+        .iter()
+        .filter_map(|b| get(b, "32B").and_then(amount_of))
+        .collect();
     let total = sum(&b_amounts);
-    let settle_eq = get(&c, "32B").and_then(amount_of).map(|x| scaled(&x) == total);
-    let f19_eq = get(&c, "19").and_then(amount_of).map(|x| scaled(&x) == total);
+    let settle_eq = get(&c, "32B")
+        .and_then(amount_of)
+        .map(|x| scaled(&x) == total);
+    let f19_eq = get(&c, "19")
+        .and_then(amount_of)
+        .map(|x| scaled(&x) == total);
     if let Some(eq) = settle_eq {
         let has19 = has(&c, "19");
         let charges = any_b("71F") || any_b("71G");
         let h_d80 = eq == has19;
         let h_c01 = f19_eq == Some(false);
-        let (l_d80, l_c01) = if charges { (!has19, f19_eq == Some(false)) } else { (!eq || has19, false) };
+        let (l_d80, l_c01) = if charges {
+            (!has19, f19_eq == Some(false))
+        } else {
+            (!eq || has19, false)
+        };
         for (code, h, l) in [("D80", h_d80, l_d80), ("C01", h_c01, l_c01)] {
             if h && l {
                 e.must(code);
@@ -107,13 +118,23 @@ pub fn content_hook(tag: &str, src: &mut crate::choice::Src) -> Option<String> {
         "32B" | "33B" => {
             if src.chance(1, 12) {
                 // a three-decimal currency: amounts that differ by less than one hundredth
-                return Some(format!("KWD{}", src.pick(&["100,", "100,001", "100,005", "100,"])));
+                return Some(format!(
+                    "KWD{}",
+                    src.pick(&["100,", "100,001", "100,005", "100,"])
+                ));
             }
             let c = *src.pick(&["USD", "USD", "USD", "USD", "USD", "EUR"]);
-            let a = *src.pick(&["100,", "100,", "100,", "200,", "300,", "200,01", "199,99", "50,", "100,00"]);
+            let a = *src.pick(&[
+                "100,", "100,", "100,", "200,", "300,", "200,01", "199,99", "50,", "100,00",
+            ]);
             Some(format!("{c}{a}"))
         }
-        "19" => Some(src.pick(&["100,", "200,", "300,", "200,01", "199,99", "400,", "299,99", "150,"]).to_string()),
+        "19" => Some(
+            src.pick(&[
+                "100,", "200,", "300,", "200,01", "199,99", "400,", "299,99", "150,",
+            ])
+            .to_string(),
+        ),
         "71F" | "71G" => {
             let c = *src.pick(&["USD", "USD", "USD", "EUR"]);
             let a = *src.pick(&["1,", "2,50", "10,"]);
@@ -121,7 +142,11 @@ pub fn content_hook(tag: &str, src: &mut crate::choice::Src) -> Option<String> {
         }
         "23E" => {
             let c = *src.pick(&["AUTH", "NAUT", "OTHR", "RTND", "RTND", "RFDD", "ZZZZ"]);
-            if src.chance(1, 4) { Some(format!("{c}/INFO")) } else { Some(c.to_string()) }
+            if src.chance(1, 4) {
+                Some(format!("{c}/INFO"))
+            } else {
+                Some(c.to_string())
+            }
         }
         _ => None,
     }
